@@ -1643,7 +1643,7 @@ class ReturnAnnotation(Base):
 # simulation has to follow the reference under every schedule.
 MAY_REJECT = ("FFVarBit", "FFVarSlice", "FuncCombWriteInFF", "FFAliasWrite")
 # designs whose SIMULATION is wrong on the unchanged tree (known findings of C01): not subjects of the translation checks
-SIM_KNOWN_WRONG = ("FFAliasWrite",)
+SIM_KNOWN_WRONG = ()
 
 
 def _reg_a_ref(st, a, b, sel, en, reset):
